@@ -1663,6 +1663,13 @@ class Engine:
             hit = self._table_lookup(base, idx, s, ch, node, fi)
             if hit is not None:
                 return hit
+            if is_const(idx) and isinstance(idx[1], int) and not isinstance(idx[1], bool) and base[0] == "call" and base[1][0] == "attr" \
+                    and base[1][2] in ("unpack", "unpack_from"):
+                # a constant index into the tuple Struct.unpack returns, within the number of fields of the format
+                from . import layout as _layout
+                fm = _layout.struct_fmt(self, base[1][1])
+                if fm is not None and -len(fm.items) <= idx[1] < len(fm.items):
+                    return ("item", base, idx)
             e = self._event("load", node, fi, depth, s)
             e.target = ("item", base, idx)
             self._raise_point(e, s, ch, node)
